@@ -131,6 +131,12 @@ def lower_unit(u, outdir):
         if meta['loops'].get(fn) != cnt:
             raise InfraError('contract no longer attached: %s has %s loops, spec expects %d' %
                              (fn, meta['loops'].get(fn), cnt))
+    # must-fire: a region picked by statement ordinal must still be the statement the spec was written for
+    for t in u.get('targets', []):
+        for rx in t.get('expect_text', []):
+            hit = [f for f in L.fn_order if f.cname == t.get('cname')]
+            if not hit or not re.search(rx, hit[0].text):
+                raise InfraError('contract no longer attached: the lowered text of %s does not contain /%s/ (the region selected by ordinal is no longer the one the spec describes)' % (t.get('cname'), rx))
     for fn in u.get('expect_functions', []):
         if fn not in meta['loops']:
             raise InfraError('contract no longer attached: function %s was not lowered' % fn)
